@@ -98,10 +98,22 @@ theorem C07_multi_url (lm : Mapper) (cfg : ImportCfg) (p₁ p₂ : PeerFile) (f 
     (hk₁ : (f₁.audits.map (·.1)).Pairwise (· < ·)) (hk₂ : (f₂.audits.map (·.1)).Pairwise (· < ·))
     (name : Nat) :
     getL name f.audits = getL name f₁.audits ++ getL name f₂.audits := by
-  have hgo : importOne.go lm cfg [p₁, p₂] = .ok [f₁, f₂] := by
-    simp only [importOne.go, h₁, h₂]
   unfold importOne at h
-  rw [hs, hgo] at h
+  rw [hs] at h
+  cases hc₁ : checkTable (sanitizeTable p₁.table) with
+  | false =>
+    simp only [importOne.go, hc₁, Bool.not_false, if_true] at h
+    cases h
+  | true =>
+  cases hc₂ : checkTable (sanitizeTable p₂.table) with
+  | false =>
+    simp only [importOne.go, hc₁, hc₂, h₁, Bool.not_false, Bool.not_true, Bool.false_eq_true,
+      if_true, if_false] at h
+    cases h
+  | true =>
+  have hgo : importOne.go lm cfg [p₁, p₂] = .ok (some [f₁, f₂]) := by
+    simp only [importOne.go, h₁, h₂, hc₁, hc₂, Bool.not_true, Bool.false_eq_true, if_false]
+  rw [hgo] at h
   simp only at h
   split at h
   · cases h
